@@ -51,6 +51,9 @@ Empty == [x \in {} |-> 0]
 Max(x, y) == IF x > y THEN x ELSE y
 Min(x, y) == IF x < y THEN x ELSE y
 Abs(x) == IF x < 0 THEN 0 - x ELSE x
+RECURSIVE RangeSeq(_, _, _)
+RangeSeq(lo, hi, step) == IF lo >= hi THEN <<>> ELSE <<lo>> \o RangeSeq(lo + step, hi, step)     \* range(lo, hi, step), step > 0
+SumRange(lo, hi, step) == Sum(RangeSeq(lo, hi, step))
 
 \* ---- operations: [k, ...parameters]; V = value sources, I = small indices
 V == {"a", "b", "n", "1"}
@@ -81,7 +84,7 @@ Ops ==
   \cup {[k |-> "sslice", lo |-> r[1], hi |-> r[2]] : r \in {<<1, -1>>, <<0, 2>>, <<1, 3>>}}
   \* tuples, scalars, calls
   \cup {[k |-> "tuple"], [k |-> "tupleidx"], [k |-> "untuple"], [k |-> "ternary"], [k |-> "max"], [k |-> "min"], [k |-> "abs"], [k |-> "addn"], [k |-> "closure"], [k |-> "defarg"],
-        [k |-> "castint"], [k |-> "caststr"], [k |-> "tryraise"], [k |-> "breakcont"], [k |-> "range3"]}
+        [k |-> "castint"], [k |-> "caststr"], [k |-> "tryraise"], [k |-> "breakcont"], [k |-> "range3"], [k |-> "range1"], [k |-> "range2"], [k |-> "range2len"], [k |-> "range3ab"], [k |-> "rangecomp1"], [k |-> "rangecomp2"]}
 
 Undef == [undef |-> TRUE]
 IsUndef(st) == "undef" \in DOMAIN st
@@ -164,6 +167,12 @@ Apply(op, st) ==
     [] k = "tryraise" -> [st EXCEPT !.n = IF st.a > 0 THEN 5 ELSE st.n]                       \* try: if a > 0: raise ... except: n = 5
     [] k = "breakcont" -> [st EXCEPT !.n = st.n + Sum(SelectSeq(SubSeq(xs, 1, IF Contains(xs, 7) THEN (CHOOSE i \in DOMAIN xs : xs[i] = 7 /\ \A j \in 1..(i - 1) : xs[j] # 7) - 1 ELSE Len(xs)), LAMBDA x : x # st.a))]
     [] k = "range3" -> [st EXCEPT !.n = st.n + 6]                                             \* for i in range(0, 6, 2): n += i
+    [] k = "range1" -> [st EXCEPT !.n = st.n + SumRange(0, st.b, 1)]
+    [] k = "range2" -> [st EXCEPT !.n = st.n + SumRange(st.a, st.b, 1)]                       \* empty when a >= b
+    [] k = "range2len" -> [st EXCEPT !.n = st.n + Sum(SubSeq(xs, 2, Len(xs)))]                \* for i in range(1, len(xs)): n += xs[i]
+    [] k = "range3ab" -> [st EXCEPT !.n = st.n + SumRange(st.a, st.b + 4, 2)]
+    [] k = "rangecomp1" -> [st EXCEPT !.ys = RangeSeq(0, st.b, 1)]
+    [] k = "rangecomp2" -> [st EXCEPT !.ys = [i \in DOMAIN RangeSeq(st.a, st.b, 1) |-> RangeSeq(st.a, st.b, 1)[i] * 2]]
 
 \* ---- text of one operation (statements at one tab of indentation)
 Key(k) == "'" \o k \o "'"
@@ -244,6 +253,12 @@ Text(op) ==
     [] k = "tryraise" -> Line("try:") \o Line("\tif a > 0:") \o Line("\t\traise RuntimeError('m')") \o Line("except RuntimeError as ex:") \o Line("\tn = 5")
     [] k = "breakcont" -> Line("for bx in xs:") \o Line("\tif bx == a:") \o Line("\t\tcontinue") \o Line("\tif bx == 7:") \o Line("\t\tbreak") \o Line("\tn += bx")
     [] k = "range3" -> Line("for ri in range(0, 6, 2):") \o Line("\tn += ri")
+    [] k = "range1" -> Line("for r1 in range(b):") \o Line("\tn += r1")
+    [] k = "range2" -> Line("for r2 in range(a, b):") \o Line("\tn += r2")
+    [] k = "range2len" -> Line("for r3 in range(1, len(xs)):") \o Line("\tn += xs[r3]")
+    [] k = "range3ab" -> Line("for r4 in range(a, b + 4, 2):") \o Line("\tn += r4")
+    [] k = "rangecomp1" -> Line("ys = [r5 for r5 in range(b)]")
+    [] k = "rangecomp2" -> Line("ys = [r6 * 2 for r6 in range(a, b)]")
 
 \* ---- initial states (written with the parameters, so that the values vary with the argument vector)
 InitText == <<
